@@ -34,6 +34,7 @@ def requests():
         Request(DS, fn=["stir::DataSymmetriesForBins_PET_CartesianGrid::find_basic_bin", "stir::DataSymmetriesForBins_PET_CartesianGrid::find_basic_view_segment_numbers", "stir::DataSymmetriesForBins_PET_CartesianGrid::find_symmetry_operation_from_basic_bin"]),
         Request(PM, fn=["stir::Bin::operator=="]),
         Request(DS, fn=["stir::DataSymmetriesForBins_PET_CartesianGrid::DataSymmetriesForBins_PET_CartesianGrid"]),
+        Request("src/recon_buildblock/ProjMatrixByBinUsingInterpolation.cxx", fn=["stir::ProjMatrixByBinUsingInterpolation::.*"], files=["/repo/src/recon_buildblock/ProjMatrixByBinUsingInterpolation.cxx"]),
     ]
 
 
@@ -260,6 +261,14 @@ def rule_c(ctx, pm, rt):
                 continue  # the cache was dropped on every path to this return
             eq = [k for k, tv, _r in cfg.facts_at(r) if tv is True and k.startswith("(== ")]
             missing = [fld for fld in REQUIRED_EQUAL if not any("this." + fld in k for k in eq)]
+            # the member compared must still hold the value of the PREVIOUS set_up: a write to it that can reach this return makes the
+            # comparison one of the new value with itself
+            for fld in REQUIRED_EQUAL:
+                if fld in missing:
+                    continue
+                ws = [n for n in f.walk() if n.i in cfg.pos and any(root_of_lvalue(e) == "this." + fld for e in written_lvalues(n))]
+                if any(cfg.paths_avoiding([cfg.pos[wn.i]], lambda n: False, target_pred=lambda n, r=r: n.i == r.i, to_exit=False) is not None for wn in ws):
+                    missing.append(fld + " (overwritten before it is compared)")
             if missing:
                 bad = (r, missing)
                 break
@@ -289,6 +298,57 @@ def rule_c(ctx, pm, rt):
             blk = cfg.blocks[cfg.pos[reads[0].i][0]] if reads[0].i in cfg.pos else None
             ok = blk is not None and any(cfg.blocks[s].aborts for s in blk.succs if s is not None)
         ctx.ob("C03.c-setup-drops-cache", f.qn, "use-requires-set-up", ok, f.where(), "rows are only computed after set_up (error otherwise)" if ok else "calculate_proj_matrix_elems_for_one_bin does not test already_setup")
+
+
+def rule_g_setup_keeps_settings(ctx, classes):
+    """Rows are determined by bin, geometry, image grid and the matrix' SETTINGS - also after set_up() for another geometry.  A setting is a
+    member the user controls: registered as a parsing key (parser.add_key(.., &member)) or assigned by a public set_* function from its
+    argument.  set_up() may have to deviate from a setting for the data at hand (mashed data, non-standard voxel size), but it must not
+    store that decision in the setting itself: the next set_up() for other data would start from the value forced for the previous
+    data.  Hence: set_up() (and the member functions it calls) never assigns a setting."""
+    n = 0
+    for cls, fns in classes:
+        settings = {}
+        by = {}
+        for f in fns:
+            if f.body is not None:
+                by.setdefault(f.qn, f)
+        for f in fns:
+            if f.body is None:
+                continue
+            for c in f.calls():
+                if (c.callee or "").split("::")[-1] in ("add_key", "add_parsing_key") and len(c.call_args()) >= 2:
+                    for a in c.call_args()[1:]:
+                        a = a.strip()
+                        if a.k == "UnaryOperator" and a.op == "&" and a.c[0].strip().k == "MemberExpr" and a.c[0].strip().get("mk") == "field":
+                            settings.setdefault(a.c[0].strip().get("n"), "parsing key")
+            if f.short.startswith("set_") and f.short != "set_up" and len(f.params) == 1 and f.cls == cls:
+                pk = "v%d" % f.params[0]["d"]
+                for m in f.walk():
+                    if m.k in ("BinaryOperator", "CXXOperatorCallExpr") and m.op == "=" and key(m.c[-1].strip()) == pk and root_of_lvalue(m.c[-2].strip()).startswith("this."):
+                        settings.setdefault(root_of_lvalue(m.c[-2].strip())[5:], f.short + "()")
+        su = [f for f in fns if f.qn == cls + "::set_up" and f.body is not None]
+        if not su or not settings:
+            ctx.unrec(cls, "no set_up() or no settings recognised")
+            continue
+        todo, seen = [su[0]], set()
+        while todo:
+            g = todo.pop()
+            if g.qn in seen:
+                continue
+            seen.add(g.qn)
+            for c in g.calls():
+                if c.callee in by and c.call_object() is not None and c.call_object().k == "CXXThisExpr" and by[c.callee].cls == cls:
+                    todo.append(by[c.callee])
+        for name, how in sorted(settings.items()):
+            hits = []
+            for qn in sorted(seen):
+                for m in by[qn].walk() if qn in by else []:
+                    if any(root_of_lvalue(e) == "this." + name for e in written_lvalues(m)):
+                        hits.append(m)
+            ctx.ob("C03.g-setup-keeps-settings", cls, "setting:" + name, not hits, (hits[0] if hits else su[0]).where(), "set_up() reads the setting `%s` (%s) without changing it" % (name, how) if not hits else "set_up() assigns the setting `%s` (%s): what it decides for the current data replaces what the user asked for, so a later set_up() for other data does not start from the setting and its rows differ from those of a fresh matrix" % (name, how))
+            n += 1
+    return n
 
 
 def rule_d(ctx, sfns):
@@ -428,7 +488,7 @@ def run(ctx):
     us = [ctx.ex.get(r) for r in reqs]
     if any(u is None for u in us):
         return
-    pm, rt, so, ds, be, ctor = (uniq(u.functions) for u in us)
+    pm, rt, so, ds, be, ctor, ip = (uniq(u.functions) for u in us)
     rule_a(ctx, pm, be)
     rule_b(ctx, pm)
     rule_c(ctx, pm, rt)
@@ -438,6 +498,8 @@ def run(ctx):
     rule_e(ctx, ds)
     rule_f_view_flags(ctx, ctor)
     ctx.require_count("C03.f-view-symmetry-flags-consistent", 1)
+    rule_g_setup_keeps_settings(ctx, [("stir::ProjMatrixByBinUsingRayTracing", rt), ("stir::ProjMatrixByBinUsingInterpolation", ip)])
+    ctx.require_count("C03.g-setup-keeps-settings", 14)
     ctx.require_count("C03.a-cache-key-injective", 12)
     ctx.require_count("C03.b-cached-row-is-finished-row", 4)
     ctx.require_count("C03.c-setup-drops-cache", 8)
